@@ -10,7 +10,7 @@ from harness import core
 
 ID = 'C19'
 TITLE = 'Invalid formulas are isolated and valid ones mean what they say'
-PROPS = ['Props/C19']
+PROPS = ['Props/C19', 'Props/C19_code']
 RULE = ('texts: 1-6 fragments (Python statements, `$name`, unterminated strings/brackets, comments, trailing '
         'backslashes, tabs, blank and whitespace-only lines, form feed, non-ASCII whitespace, astral characters) '
         'joined by "\\n", "\\r\\n" or bare "\\r", plus random strings over a small alphabet; formulas for the '
@@ -118,6 +118,8 @@ def nonprintable_ranges():
 
 
 def regenerate(ctx):
+  from harness import c19gen
+  c19gen.regenerate(ctx)
   rs = nonprintable_ranges()
   text = ('(* GENERATED by harness/props/c19.py from str.isprintable of the running interpreter. *)\n'
           'From Coq Require Import ZArith List Bool.\nImport ListNotations.\nOpen Scope Z_scope.\n'
@@ -126,18 +128,21 @@ def regenerate(ctx):
           'Definition printable (c : Z) : bool :=\n'
           '  negb (existsb (fun r => (fst r <=? c) && (c <=? snd r)) nonprintable_ranges).\n')
   core.write_if_changed(os.path.join(core.COQ, 'gen', 'Codegen_gen.v'), text)
-  rc, out = core.coq_make(['gen/Codegen_gen.vo'], timeout=300)
+  rc, out = core.coq_make(['gen/Codegen_gen.vo', 'gen/CodeBuilder_gen.vo'], timeout=600)
   if rc != 0:
-    raise core.TieBroken('coq/gen/Codegen_gen.v does not compile: ' + out[-800:])
+    raise core.TieBroken('coq/gen/Codegen_gen.v or CodeBuilder_gen.v does not compile: ' + out[-800:])
 
 
 # ------------------------------------------------------------------------------------------------
 # correspondence: model (vm_compute) vs the running functions
 
 S = core.strlit
-IMPORTS = ['Grist.Model.Codegen', 'Grist.Model.Dollar', 'GristGen.Codegen_gen']
+IMPORTS = ['Grist.Model.Codegen', 'Grist.Model.Dollar', 'GristGen.Codegen_gen', 'Grist.Model.TextBuilder',
+           'Grist.Lib.TbPrelude', 'GristGen.TextBuilder_gen', 'Grist.Lib.CbPrelude', 'GristGen.CodeBuilder_gen']
 EQ = ('Definition teq (a b : list Z) : bool := if list_eq_dec Z.eq_dec a b then true else false.\n'
       'Definition misc_case := ((list Z * list Z) + ((list Z * list Z) + (Z * list Z)))%type.\n')
+from harness import c19gen        # noqa: E402
+EQ = EQ + c19gen.GEN_DEFS
 
 
 def _impl_indent(t, ind):
@@ -230,8 +235,10 @@ def correspond(ctx):
     ctx.count(('dedent', t), nontrivial=(ded != t), sample={'text': t, 'dedent': ded},
               kind='corr:dedent ' + kind_of_text(t))
   jobs.append(('indent_dedent', 'fun c => match c with (ind, t, out, ded) => teq (indent_re ind t) out && '
-               'teq (dedent_re t) ded end', cases, used,
-               'indent_re/dedent_re differ from codebuilder._indent/_dedent on', 2000))
+               'teq (dedent_re t) ded && rteq (gen_indent t ind) out && rteq (gen_dedent t) ded end', cases, used,
+               'indent_re/dedent_re or the generated gen_indent/gen_dedent differ from codebuilder._indent/_dedent on',
+               2000))
+  ctx.bump('gen:gen_indent/gen_dedent evaluated against the running functions', 2 * len(cases))
 
   # 4. _create_syntax_error_code (comment part, statement format, repr)
   cases, used = [], []
@@ -258,7 +265,8 @@ def correspond(ctx):
     used.append((t, name, message, line, col1, line_text))
     ctx.count(('stub', t, msg), nontrivial=True, sample={'text': t, 'stub': out}, kind='corr:stub ' + kind_of_text(t))
   jobs.append(('stub', "fun c => match c with (name, msg, line, col1, ltext, t, out) => "
-               "teq (stub_code printable name msg line col1 ltext t) out end", cases, used,
+               "teq (stub_code printable name msg line col1 ltext t) out && "
+               "teq (gen_create_syntax_error_code printable name msg line (col1 - 1) ltext t) out end", cases, used,
                'stub_code differs from codebuilder._create_syntax_error_code on', 1200))
 
   # 5. repr of str / int
@@ -289,6 +297,14 @@ def correspond(ctx):
   jobs.append(('pipeline', chk, c, u, 'indent_re ind (stub_of_formula ..) differs from make_formula_body on', 1000))
   c, u, chk = unindent_cases(ctx, ctx.n(120, 3000))
   jobs.append(('unindent', chk, c, u, 'indent + unindent_re differ from make_formula_body on the string literal', 1500))
+  c, u, chk = c19gen.regex_cases(ctx, texts + formulas[:ctx.n(150, 4000)])
+  jobs.append(('regex', chk, c, u, 'the meaning of a pattern in Lib/CbPrelude.v differs from the re module on', 1500))
+  mlf = [gen_mlformula(rng) for _ in range(ctx.n(60, 1500))]
+  c, u, chk = c19gen.body_cases(ctx, mlf + formulas[:ctx.n(90, 2500)])
+  jobs.append(('genbody', chk, c, u, 'generated gen_make_formula_body/gen_multiline_string_nodes differ from the code on',
+               400))
+  c, u, chk = c19gen.walk_cases(ctx, mlf[:ctx.n(30, 800)] + formulas[:ctx.n(120, 3000)], token_stream, LAZY)
+  jobs.append(('genwalk', chk, c, u, 'generated gen_walk differs from the loop of _do_make_formula_body on', 400))
   c, u, chk = field_cases(ctx, formulas[:ctx.n(150, 5000)])
   jobs.append(('field', chk, c, u, 'formula_field differs from GenCode._make_formula_field on', 1500))
   ctx.bump('corr:formula fields', len(c))
@@ -425,7 +441,7 @@ def dollar_cases(ctx, formulas):
     used.append(f)
     ctx.count(('dollar', f), nontrivial=('$' in f), sample={'formula': f, 'body': body}, kind='corr:dollar')
   check = ('fun c => match c with (ks, f, body) => let f0 := formula_text f in '
-           'forallb tok_wf ks && teq (src_of ks) f0 && teq (spec_of ks) body '
+           'forallb tok_wf ks && teq (src_of ks) f0 && rteq (gen_formula_text f) f0 && teq (spec_of ks) body '
            '&& teq (translate f0 (rev (name_offsets 0 ks)) (match mark_offsets 0 ks with p :: _ => Some p | [] => None end)) '
            'body end')
   return cases, used, check
@@ -446,7 +462,7 @@ def offsets_cases(ctx, formulas):
     cases.append('(%s, %s, %s)' % (S(f), S(tmp), core.zlist(back)))
     used.append(f)
   check = ('fun c => match c with (f, tmp, back) => teq (tmp_text f) tmp && '
-           'teq (map (get_input_pos (replacer_offsets (tmp_patches f))) (map Z.of_nat (seq 0 (List.length back)))) back end')
+           'teq (map (Dollar.get_input_pos (replacer_offsets (tmp_patches f))) (map Z.of_nat (seq 0 (List.length back)))) back end')
   return cases, used, check
 
 
@@ -496,7 +512,9 @@ def pipeline_cases(ctx, formulas):
     ctx.count(('pipeline', f), nontrivial=True, sample={'formula': f, 'body': body},
               kind='corr:pipeline ' + kind_of_text(f))
   check = ('fun c => match c with (ind, name, msg, line, col1, ltext, f, body) => '
-           'teq (indent_re ind (stub_of_formula printable name msg line col1 ltext f)) body end')
+           'teq (indent_re ind (stub_of_formula printable name msg line col1 ltext f)) body && '
+           'match gen_formula_text f with Ok ft => rteq (gen_indent (gen_create_syntax_error_code printable name msg '
+           'line (col1 - 1) ltext ft) ind) body | _ => false end end')
   return cases, used, check
 
 
